@@ -159,6 +159,7 @@ type Machine struct {
 	promRegistered map[*Value]map[string]bool
 	syncMaps       map[*Value]*Map
 	builders       map[*Value]Str
+	renderSplit    bool
 }
 
 type classDef struct {
